@@ -9,6 +9,8 @@ mod c17x;
 mod inbound;
 mod inbound_oracles;
 mod c05;
+mod c06;
+mod c06wrap;
 mod c09;
 mod c10;
 mod c10conn;
@@ -52,7 +54,7 @@ fn main() {
             let choices: Vec<u16> = if is_script { vec![] } else { raw.split(',').filter_map(|x| x.parse().ok()).collect() };
             let script: Option<Vec<String>> = if is_script { Some(raw.split(';').map(|x| x.trim().to_string()).filter(|x| !x.is_empty()).collect()) } else { None };
             let rec = match prop.as_str() {
-                "C05" | "C13" => c05::trace(&prop, t, idx, &choices, script, 20_000),
+                "C05" | "C13" | "C06" | "C14" => c05::trace(&prop, t, idx, &choices, script, 20_000),
                 "C03" | "C04" | "C11" | "C12" | "C16" | "C17" => c03::trace(&prop, t, idx, &choices, script, 20_000),
                 _ => {
                     eprintln!("no trace support for {prop}");
@@ -80,7 +82,7 @@ fn main() {
                 let choices: Vec<u16> = r["choices"].as_array().map(|a| a.iter().map(|x| x.as_u64().unwrap() as u16).collect()).unwrap_or_default();
                 let max_polls = r["max_polls"].as_u64().unwrap_or(20_000);
                 let rec = match prop.as_str() {
-                    "C05" | "C13" => c05::trace(&prop, t, idx, &choices, None, max_polls),
+                    "C05" | "C13" | "C06" | "C14" => c05::trace(&prop, t, idx, &choices, None, max_polls),
                     "C03" | "C04" | "C11" | "C12" | "C16" | "C17" => c03::trace(&prop, t, idx, &choices, None, max_polls),
                     _ => {
                         eprintln!("no simnet replay for {prop}");
@@ -131,6 +133,8 @@ fn main() {
                 Some("C16") => c16::run(t),
                 Some("C12") => c12::run(t),
                 Some("C05") => c05::run(t),
+                Some("C06") => c06::run_c06(t),
+                Some("C14") => c06::run_c14(t),
                 Some("C13") => c05::run_c13(t),
                 Some("C09") => c09::run(t),
                 Some("C10") => c10::run(t),
